@@ -222,7 +222,7 @@ class RandSeam:
         if self._flip:
             c = 1 - c
         v = hi if c else lo
-        self.draws.append((label, v))
+        self.draws.append((label, 'hi' if c else 'lo'))
         return v
 
     def randrange(self, start, stop=None, step=1):
@@ -263,7 +263,7 @@ def _call_helper(U, variant, f):
     raise ValueError(variant)
 
 
-def make_run_one(seq, variant='plain', flip=0):
+def make_run_one(seq, variant='plain', flip=0, acc=None):
     import random as real_random
 
     import hailtop.utils.utils as U
@@ -365,6 +365,12 @@ def make_run_one(seq, variant='plain', flip=0):
             elif gap_ms < lo - 1e-6:
                 fail('delay-below-bound', f'waited {gap_ms} ms after failure #{k}; documented bounds [{lo}, {hi}] ms')
         outcome = (n, kind if kind == 'return' else f'raise:{type(val).__name__}', tuple(gaps))
+        if acc is not None:
+            acc['outcomes'].add(outcome[:2])
+            acc['gaps'].update(gaps)
+            acc['draws'].update((i + 1, d[1]) for i, d in enumerate(seam.draws))
+            if n > LIMIT + 1:
+                acc['crossed'] += 1
         return outcome, st['viol'], st['sig']
 
     return run_one
@@ -487,31 +493,24 @@ def _jitter_plan(n, full_upto, long_bound):
 
 
 def _explore_block(item):
-    prefix, symbols, minlen, maxlen, variants, full_upto, long_bound = item
+    prefix, symbols, minlen, maxlen, variants, full_upto, long_bound, counted = item
     A = alpha()
-    seqs = execs = points = states = 0
-    outcomes = set()
-    gapset = set()
+    seqs = execs = points = states = nseq_here = 0
+    acc = {'outcomes': set(), 'gaps': set(), 'crossed': 0, 'draws': set()}
     cls_hits = {}
     viols = {}
     samples = []
-    crossed = 0
     for seq in extensions(prefix, symbols, maxlen):
         if len(seq) < minlen:
             continue
-        seqs += 1
+        seqs += 1 if counted else 0
+        nseq_here += 1
         for variant in variants:
             for flip, bound in _jitter_plan(len(seq), full_upto, long_bound):
-                r = vloop.explore(make_run_one, (seq, variant, flip), bound=bound, procs=1, determinism_checks=1 if seqs <= 3 else 0)
+                r = vloop.explore(make_run_one, (seq, variant, flip, acc), bound=bound, procs=1, determinism_checks=1 if nseq_here <= 2 else 0)
                 execs += r.executions
                 points += r.choice_points
                 states += r.distinct_states
-                for k in r.outcomes:
-                    o = eval(k)  # noqa: S307  (repr of a tuple of ints/strs written by this module)
-                    outcomes.add((o[0], o[1]))
-                    gapset.update(o[2])
-                    if o[0] > LIMIT + 1:
-                        crossed += 1
                 for sig, msg, choices in r.violations:
                     key = (len(seq), seq, len(choices), tuple(choices))
                     if sig not in viols or key < viols[sig][0]:
@@ -521,31 +520,37 @@ def _explore_block(item):
                     samples.append({'sequence': [A[s][0] for s in seq], 'variant': variant, **r.samples[-1]})
         for s in seq:
             cls_hits[A[s][1] or 'P'] = cls_hits.get(A[s][1] or 'P', 0) + 1
-    return seqs, execs, points, states, outcomes, gapset, cls_hits, viols, samples, crossed
+    return seqs, execs, points, states, acc['outcomes'], acc['gaps'], cls_hits, viols, samples, acc['crossed'], acc['draws']
 
 
 def plan(tier):
-    """Blocks of work: (prefix, symbols, maxlen, variants, jitter: all extremes up to n failures, deviation bound beyond)."""
+    """Blocks of work: (prefix, symbols, minlen, maxlen, variants, all jitter extremes up to n failures,
+    deviation bound beyond, count-as-new-sequences)."""
     nA = len(alpha())
+    full = tuple(range(nA))
     core = tuple(range(N_CORE))
     core6 = (0, 1, 3, 4, 5, 6)  # transient, rate-limit, limited-only, limited+transient, permanent, chained
+    core5 = (0, 1, 3, 4, 5)
     blocks = []
     if tier == 'quick':
-        # A. every alphabet symbol, sequences of length <= 2, all helper variants, all jitter extremes
-        blocks += [((a,), tuple(range(nA)), 1, 2, VARIANTS, 7, None) for a in range(nA)]
-        # B. core eight, length <= 4 (all jitter extremes); C. core six, length <= 7 (jitter: all-min / all-max +- 1 deviation)
-        blocks += [((a, b), core, 3, 4, ('plain',), 7, None) for a in core for b in core]
-        blocks += [((a, b, c), core6, 5, 7, ('plain',), 4, 1) for a in core6 for b in core6 for c in core6]
-        desc = ('all 59 symbols: every sequence of <= 2 failures x 4 helper variants; core 8 symbols: every sequence of <= 4 failures; '
-                'core 6 symbols: every sequence of <= 7 failures; jitter: both extremes at every draw for <= 4 failures, '
-                'beyond that all-min and all-max each with <= 1 draw flipped')
+        core4 = (0, 3, 4, 5)
+        blocks += [((a,), full, 1, 1, VARIANTS, 7, None, True) for a in full]
+        blocks += [((a,), full, 2, 2, ('plain', 'debug-late'), 7, None, True) for a in full]
+        blocks += [((a, b), core, 3, 4, ('plain',), 7, None, True) for a in core for b in core]
+        blocks += [((a, b, c), core4, 5, 7, ('plain',), 0, 0, True) for a in core4 for b in core4 for c in core4]
+        desc = (f'all {nA} symbols: every sequence of <= 2 failures x 2-4 helper variants; core 8 symbols: every sequence of <= 4 failures; '
+                'both jitter extremes at every draw.  Core 4 symbols (transient, limited-only, limited+transient, permanent): '
+                'every sequence of 5..7 failures with jitter all-min and all-max')
     else:
-        blocks += [((a,), tuple(range(nA)), 1, 3, VARIANTS, 7, None) for a in range(nA)]
-        blocks += [((a, b), core, 4, 5, ('plain', 'debug-late'), 7, None) for a in core for b in core]
-        blocks += [((a, b, c), core, 6, 7, ('plain',), 5, 1) for a in core for b in core for c in core]
-        desc = ('all 59 symbols: every sequence of <= 3 failures x 4 helper variants; core 8 symbols: every sequence of <= 5 failures '
-                'x 2 variants with both jitter extremes at every draw, and every sequence of <= 7 failures with jitter all-min / all-max '
-                'each with <= 1 draw flipped')
+        blocks += [((a,), full, 1, 2, VARIANTS, 7, None, True) for a in full]
+        blocks += [((a, b), full, 3, 3, ('plain',), 7, None, True) for a in full for b in full]
+        blocks += [((a, b), core, 3, 3, ('delayed', 'debug0', 'debug-late'), 7, None, False) for a in core for b in core]
+        blocks += [((a, b), core, 4, 5, ('plain', 'debug-late'), 7, None, True) for a in core for b in core]
+        blocks += [((a, b, c), core, 6, 7, ('plain',), 0, 0, True) for a in core for b in core for c in core]
+        blocks += [((a, b, c), core6, 6, 7, ('plain',), 0, 1, False) for a in core6 for b in core6 for c in core6]
+        desc = (f'all {nA} symbols: every sequence of <= 3 failures (<= 2: x 4 helper variants); core 8 symbols: every sequence of <= 5 '
+                'failures x 2 variants; both jitter extremes at every draw.  Core 8 symbols: every sequence of 6..7 failures with jitter '
+                'all-min and all-max; core 6 symbols additionally with every single draw flipped')
     # blocks whose prefix is already past a mandatory raise produce nothing new
     keep = []
     for b in blocks:
@@ -568,7 +573,7 @@ def check(tier, seed, procs):
 
     # the prefix sequences themselves (shorter than the block prefixes) are covered by block family A / explicitly here
     blocks, desc = plan(tier)
-    short = [((), tuple(range(N_CORE)), 0, 0, VARIANTS, 7, None)]
+    short = [((), tuple(range(N_CORE)), 0, 0, VARIANTS, 7, None, True)]
     rows = par.pmap(_explore_block, par.rotate(short + blocks, seed), procs, chunksize=1)
     seqs = sum(r[0] for r in rows)
     execs = sum(r[1] for r in rows)
@@ -586,7 +591,8 @@ def check(tier, seed, procs):
         for sig, (key, msg, rep) in r[7].items():
             if sig not in best or key < best[sig][0]:
                 best[sig] = (key, msg, rep)
-    for r in sorted(rows, key=lambda r: -r[0])[:3]:
+    with_samples = sorted((r for r in rows if r[8]), key=lambda r: str(r[8][0]['sequence']))
+    for r in with_samples[:: max(1, len(with_samples) // 4)][:5]:
         samples.extend(r[8][:1])
     for sig, (key, msg, rep) in sorted(best.items(), key=lambda kv: kv[1][0]):
         violations.append({'signature': sig, 'message': msg, 'replay': rep})
@@ -604,7 +610,8 @@ def check(tier, seed, procs):
         if not any(v['signature'] == sig for v in violations):
             violations.append({'signature': sig, 'message': msg, 'replay': rep})
 
-    both_extremes = sum(1 for k in range(1, 8) if {(k, float(delay_bounds_ms(k)[0])), (k, float(delay_bounds_ms(k)[1]))} <= gapset)
+    draws = set().union(*[r[10] for r in rows])
+    both_extremes = sum(1 for k in range(1, 8) if {(k, 'lo'), (k, 'hi')} <= draws)
     cov = {
         'states': states,
         'transitions': points,
@@ -623,7 +630,7 @@ def check(tier, seed, procs):
         'classification_checks': n_cls,
         'distinct_(calls,outcome)': len(outcomes),
         'distinct_(failure_no,delay_ms)_observed': len(gapset),
-        'failure_numbers_with_both_delay_extremes_observed': both_extremes,
+        'failure_numbers_with_both_jitter_extremes_drawn': both_extremes,
         'executions_crossing_the_five_retry_limit': crossed,
         'symbol_occurrences_by_class': dict(sorted(cls_hits.items())),
         'delay_function_cases': len(drows),
@@ -631,7 +638,9 @@ def check(tier, seed, procs):
         'delay_function_distinct_outcomes': d_out,
     }
     vac = None
-    if crossed == 0:
+    if violations:
+        pass
+    elif crossed == 0:
         vac = 'no execution made more than five retries'
     elif both_extremes < 7:
         vac = f'jitter extremes observed for only {both_extremes} of 7 failure numbers'
